@@ -37,6 +37,7 @@ def build():
       posargs=SeqVar, namedargs=DictSV, starargs=OptVar, starstarargs=OptVar))
   T.bind_obj(FB_PY, 'SignedFunction', collections.OrderedDict(
       signature=('obj', SIG_PY, 'Signature'), ctx=Ctx))
+  T.runtime_class = {(SIG_PY, 'Signature'): [(FN_PY, 'Signature')]}   # Signature objects are abstract.function.Signature instances
   T.inline.add((SIG_PY, 'Signature.posonly_params'))
   T.inline.add((FB_PY, 'SignedFunction.get_nondefault_params'))
   T.inline.add((FB_PY, 'SignedFunction.argcount'))
